@@ -117,9 +117,9 @@ pub struct DelayedDescriptor { pub outpoint: DescOutPoint }
 //@ensures P C07 a-maturing-delayed-output-of-ours-counts-as-this-htlcs-claim-only-if-its-transaction-spends-this-very-output-of-the-confirmed-commitment-at-the-input-matching-the-output
     r == (confirmed_txid == Some(inp.previous_output.txid) && inp.previous_output.vout == htlc_commitment_tx_output_idx && descriptor.outpoint.index as usize == input_idx),
 //@mutant any_transaction_spending_an_output_with_that_index_counts
-    Some(inp.previous_output.txid) == confirmed_txid &&
+    Some(inp.previous_output.txid) == confirmed_txid && inp.previous_output.vout == htlc_commitment_tx_output_idx && descriptor
 //@with
-    confirmed_txid.is_some() &&
+    confirmed_txid.is_some() && inp.previous_output.vout == htlc_commitment_tx_output_idx && descriptor
 //@end
 // ---- get_claimable_balances while the channel is open: every HTLC of our current commitment is accounted for exactly once ----
 pub open spec fn rounded(htlc: &HTLCOutputInCommitment) -> u64 { if htlc.transaction_output_index is None { htlc.amount_msat } else { (htlc.amount_msat % 1000) as u64 } }
